@@ -2,7 +2,10 @@ import itertools
 import vf, repairgen
 def shapes(tier):
     if tier == 'quick':
-        return [(['CHGbad', 'BLK'], 2), (['REPbad', 'BLK'], 2), (['BLKbad', 'CHG'], 1), (['BLKbad', 'DEL'], 1), (['BLKbad', 'REP'], 2), (['CHGbad', 'BLKbad'], 1), (['DEL', 'CHGbad'], 2), (['REP', 'CHGbad'], 2), (['BLKbad', 'BLKbad', 'BLKbad'], 2)]
+        # a damaged synced block next to a pending (CHG) one is thorough only: with both, the number of blocks handed to repair_step()
+        # is symbolic in both strategies and symbolic execution alone takes ~10 minutes or more at any level (DESIGN.md A.0); in the
+        # quick tier those two shapes were never decided within 1800 s
+        return [(['CHGbad', 'BLK'], 2), (['REPbad', 'BLK'], 2), (['BLKbad', 'DEL'], 1), (['BLKbad', 'REP'], 2), (['DEL', 'CHGbad'], 2), (['REP', 'CHGbad'], 2), (['BLKbad', 'BLKbad', 'BLKbad'], 2)]
     S = []
     kinds = ['BLK', 'BLKbad', 'REP', 'REPbad', 'CHG', 'CHGbad', 'DEL', 'EMPTY']
     for a, b in itertools.product(kinds, kinds):
